@@ -388,6 +388,15 @@ class IntegralGenerator:
         # Group loops by blockmap, in Vector elements each component has
         # a different blockmap
         for blockmap, blockdata in blocks:
+            if (
+                self.ir.part == TensorPart.diagonal
+                and len(blockmap) == 2
+                and blockmap[0] != blockmap[1]
+            ):
+                # Test and trial dofs of this block differ (other component,
+                # sub-element or restriction): none of its entries is on the
+                # diagonal of the element tensor
+                continue
             scalar_blockmap = []
             assert len(blockdata.ma_data) == len(blockmap)
             for i, b in enumerate(blockmap):
